@@ -384,8 +384,10 @@ def translate(repo, relpath, sigs=None, _depth=0):
             out.append(" " * ind + "%s = __getbuffer__(%s)" % (mg.group(2), mg.group(1)))
             i += 1
             continue
-        if re.match(r"^PyBuffer_Release\(&\s*[\w.]+\)$", st):
-            out.append(" " * ind + "pass")
+        mr = re.match(r"^PyBuffer_Release\(&\s*([\w.]+)\)$", st)
+        if mr:
+            # kept as a call (a no-op for the values; contracts that track who holds the exported buffer model it)
+            out.append(" " * ind + "__release__(%s)" % mr.group(1))
             i += 1
             continue
         if body.startswith("with nogil"):
